@@ -8,7 +8,7 @@ mkdir -p build; : > $OUT
 ids="$@"; [ -z "$ids" ] && ids=$(ls seeded)
 props=$(python3 -c "import sys; sys.path.insert(0,'tools'); import registry; print(' '.join(sorted(registry.PROPS)))")
 for id in $ids; do
-  git -C $REPO apply seeded/$id/patch.diff || { echo "$id does not apply" >> $OUT; continue; }
+  git -C $REPO apply $PWD/seeded/$id/patch.diff || { echo "$id does not apply" >> $OUT; continue; }
   for p in $props; do
     r=$(VERIF_NO_ESCALATE=1 ./check $p --tier quick 2>&1 | grep -E "^VIOLATION" | head -1)
     case "$r" in
@@ -18,5 +18,5 @@ for id in $ids; do
     esac
     printf "%s\t%s\t%s\n" $id $p $v >> $OUT
   done
-  git -C $REPO checkout -- .
+  git -C $REPO apply -R $PWD/seeded/$id/patch.diff
 done
